@@ -45,6 +45,7 @@ Definition tables_ok : bool :=
   forallb (fun ea => forallb (fun kp => key_static_ok (fst ea) (fst kp)) (snd ea)) bm_el_attrs
   && forallb (fun kp => safe_key (fst kp)) bm_global_attrs
   && forallb (fun n => match assoc_s n bm_el_attrs with None => true | Some _ => unsafe_name n end) forbidden_elements
+  && forallb (fun sc => mem_str sc safe_schemes) bm_url_schemes
   && safe_key s_rel && safe_key s_target && safe_key s_crossorigin
   && bm_requireParseableURLs && negb bm_allowUnsafe.
 
@@ -56,12 +57,20 @@ Definition tbl_global : bool := forallb (fun kp => safe_key (fst kp)) bm_global_
 Definition tbl_forbidden : bool :=
   forallb (fun n => match assoc_s n bm_el_attrs with None => true | Some _ => unsafe_name n end) forbidden_elements.
 
-Lemma tables_parts : tbl_el = true /\ tbl_global = true /\ tbl_forbidden = true.
+Definition tbl_schemes : bool := forallb (fun sc => mem_str sc safe_schemes) bm_url_schemes.
+
+Lemma tables_parts : tbl_el = true /\ tbl_global = true /\ tbl_forbidden = true /\ tbl_schemes = true.
 Proof.
   pose proof tables_ok_true as T. unfold tables_ok in T.
-  fold tbl_el tbl_global tbl_forbidden in T.
+  fold tbl_el tbl_global tbl_forbidden tbl_schemes in T.
   do 5 (apply andb_prop in T as [T _]).
-  apply andb_prop in T as [T F]. apply andb_prop in T as [E G]. auto.
+  apply andb_prop in T as [T S]. apply andb_prop in T as [T F]. apply andb_prop in T as [E G]. auto.
+Qed.
+
+Lemma T_schemes : forall sc, mem_str sc bm_url_schemes = true -> mem_str sc safe_schemes = true.
+Proof.
+  intros sc H. apply mem_str_In in H. destruct tables_parts as [_ [_ [_ T]]]. unfold tbl_schemes in T.
+  rewrite forallb_forall in T. exact (T _ H).
 Qed.
 
 Lemma T_el : forall el aps k ps, In (el, aps) bm_el_attrs -> In (k, ps) aps -> key_static_ok el k = true.
@@ -80,7 +89,7 @@ Qed.
 Lemma T_forbidden : forall n aps, assoc_s n bm_el_attrs = Some aps -> unsafe_name n = false -> mem_str n forbidden_elements = false.
 Proof.
   intros n aps A U. destruct (mem_str n forbidden_elements) eqn:M; [|reflexivity].
-  apply mem_str_In in M. destruct tables_parts as [_ [_ T]]. unfold tbl_forbidden in T.
+  apply mem_str_In in M. destruct tables_parts as [_ [_ [T _]]]. unfold tbl_forbidden in T.
   rewrite forallb_forall in T. specialize (T _ M). rewrite A in T. congruence.
 Qed.
 
@@ -147,7 +156,7 @@ Proof.
     destruct (u_scheme u); [congruence|discriminate].
   - destruct (mem_str (u_scheme u) bm_url_schemes) eqn:M; [|discriminate]. inversion H; subst v.
     destruct (browser_scheme (u_str u)) as [s|] eqn:B; [|reflexivity].
-    apply str_eqb_eq in S. subst s. exact M.
+    apply str_eqb_eq in S. subst s. apply T_schemes. exact M.
 Qed.
 
 (* ------------------------------------------- what sanitize_attrs can return, stage by stage *)
